@@ -82,3 +82,63 @@ def stage_order(F):
     if not a:
         raise AnalysisError("WorkBucketStage enum not found")
     return {v["name"]: v["discr"] for v in a["variants"]}
+
+
+def check_trace_kinds(ctx, F, rule, sites, fwd_stages, clo_stages, floor):
+    """Two-pass plans (MarkCompact, Compressor) must parameterise the packets of the liveness rounds with their marking trace and the
+    packets of the forwarding rounds with their forwarding trace; read from the generic arguments rustc resolved at each add site."""
+    # two-pass plans hand the *marking* trace to the liveness rounds and the *forwarding* trace to the
+    # forwarding rounds ("objects it traced survive with updated addresses": a forwarding round that marks returns old addresses)
+    two_pass = {"markcompact": ("policy::markcompactspace::TRACE_KIND_MARK", "policy::markcompactspace::TRACE_KIND_FORWARD"),
+                "compressor": ("policy::compressor::compressorspace::TRACE_KIND_MARK", "policy::compressor::compressorspace::TRACE_KIND_FORWARD_ROOT")}
+    nk = 0
+    for plan, (mk, fk) in two_pass.items():
+        if mk not in F.consts or fk not in F.consts:
+            raise AnalysisError(rule + ": trace-kind constants of %s not found" % plan)
+        kinds = {"mark": F.consts[mk]["v"], "forward": F.consts[fk]["v"]}
+        ctx.judge(kinds["mark"] != kinds["forward"], rule, "%s: marking and forwarding traces are different kinds" % plan, expected="distinct constants", found=str(kinds), key=rule + "|distinct|" + plan)
+        for st in sites:
+            f = st.fn
+            if ("plan::%s::global::" % plan) not in f.q or not f.q.endswith("schedule_collection"):
+                continue
+            if st.stage not in tuple(fwd_stages) + tuple(clo_stages):
+                continue
+            texts = list(st.cs.ga[1:])
+            if st.method == "set_sentinel":
+                texts += [g for c in live_calls(f, name="new") if any(pk in (c.q or "") for pk in st.packets) for g in c.ga]
+            ks = set()
+            for tx in texts:
+                for m in re.finditer(r"PlanTrace<plan::%s::global::\w+<VM>, (\d+)>" % plan, tx):
+                    ks.add(int(m.group(1)))
+            if not ks:
+                continue   # packet without a trace parameter (WeakRefProcessing, PhantomRefProcessing)
+            nk += 1
+            want = kinds["forward"] if st.stage in tuple(fwd_stages) else kinds["mark"]
+            ctx.judge(ks == {want}, rule, "%s: %s on %s uses the %s trace" % (plan, "/".join(sorted(st.packets)), st.stage, "forwarding" if st.stage in tuple(fwd_stages) else "marking"),
+                      expected="PlanTrace<_, %s>" % want, found=str(sorted(ks)), where=where(f, st.cs.line), key=rule + "|%s|%s|%s" % (plan, st.stage, "/".join(sorted(st.packets))))
+    ctx.floor(rule, nk, floor, "trace-parameterised weak-reference packets of the two-pass plans")
+
+
+
+def check_poll_clears_one(ctx, F, rule):
+    """WorkerGoals::poll_next_goal takes exactly one pending request: the only write to the request table is one store of `false`
+    into the entry it returns (a poll that wiped the table would drop a pending fork / shutdown / GC request). Shared by C14, C16."""
+    png = F.fn("scheduler::worker_goals::WorkerGoals::poll_next_goal")
+    # poll_next_goal clears exactly the request it returns: the store of `false` is under *requested == true
+    clr = [(bb, pl, t) for (bb, j, pl, t) in stores(png) if const_arg(t) is False]
+    def found_by_find(fn, tree):
+        """The entry comes out of `iter_mut().find(|(_, r)| **r)`: the first entry whose flag is set (idiom equivalent to the loop)."""
+        for s in walk(strip(tree)):
+            if s and s[0] == "call" and last_seg(s[2] or s[1]) == "find" and len(s[3]) == 2 and "requests" in show(s[3][0]):
+                cl = [x for x in walk(s[3][1]) if x and x[0] == "agg" and x[1][0] == "closure" and x[1][1] in F.fns]
+                if len(cl) == 1:
+                    rts = [strip(t2) for _, t2 in F.fns[cl[0][1][1]].flow.return_trees()]
+                    if rts and all(any(y == ("arg", 2) for y in walk(r)) and "Not(" not in show(r) for r in rts):
+                        return True
+        return False
+    okp = len(clr) == 1 and (any(p.val is True for p in guards(png, clr[0][0])) or found_by_find(png, png.flow.place_tree(clr[0][1], clr[0][0], 0)) or
+                             any(p.val in ("Continue", "Some") and found_by_find(png, p.tree) for p in guards(png, clr[0][0])))
+    ctx.judge(okp, rule, "poll_next_goal clears only the request it takes", expected="one store of false, under *requested == true (or on the entry returned by find(|r| *r))",
+              found=str([(bb, guard_strs(png, bb)) for bb, _, _ in clr])[:300], where=where(png), key=rule + "|poll-clears-one")
+    bulk = [c for c in live_calls(png) if c.name in ("clear", "fill", "drain", "take", "replace", "swap") and "requests" in show(strip(png.flow.arg_tree(c, 0)))]
+    ctx.judge(not bulk, rule, "poll_next_goal never wipes the request table", expected="no clear/fill/drain/take/replace on self.requests", found=str([c.name for c in bulk]), where=where(png), key=rule + "|poll-no-bulk")
